@@ -89,7 +89,8 @@ type Case struct {
 	Compress bool   `json:"compress"`
 	Idx      bool   `json:"idx"`
 	Gen      bool   `json:"gen"`
-	Via      string `json:"via"` // read | writeto
+	Mw       bool   `json:"mw"`  // a middleware sets a custom response header (string API) before the file handler
+	Via      string `json:"via"` // read | writeto | iocopy
 	Tree     Tree   `json:"tree"`
 	Reqs     []Req  `json:"reqs"`
 	raw      map[string]interface{}
@@ -342,6 +343,12 @@ func currentHangTimeout() time.Duration {
 func runCase(tr *vtrace.Writer, t *tree, c *Case, cacheDur time.Duration) {
 	tr.Emit("Case", vtrace.Rec(c.raw))
 	e := newEngine()
+	if c.Mw {
+		e.Use(func(cc context.Context, ctx *app.RequestContext) { ctx.Response.Header.Set("X-C08-Policy", "DENY") })
+	}
+	// ONE RequestContext per case, recycled between its requests the way the http1 server does it for the requests of a
+	// keep-alive connection (ctx.ResetWithoutConn()): the 2nd/3rd request sees whatever a reset leaves behind.
+	rctx := e.NewContext()
 	prefix := ""
 	switch c.Route {
 	case "fs", "fsrw", "vhost":
@@ -378,7 +385,7 @@ func runCase(tr *vtrace.Writer, t *tree, c *Case, cacheDur time.Duration) {
 		}
 		done := make(chan result, 1)
 		go func(i int, rq Req) {
-			ev, rec := serveOne(t, e, c, i, prefix, rq)
+			ev, rec := serveOne(t, e, rctx, c, i, prefix, rq)
 			done <- result{ev, rec}
 		}(i, rq)
 		select {
@@ -408,7 +415,7 @@ func echo(t *tree, i int, rq Req) vtrace.Rec {
 		"ae": rq.Ae, "host": rq.Host, "ims": rq.Ims, "tgt": rq.Tgt, "flen": flen}
 }
 
-func serveOne(t *tree, e *route.Engine, c *Case, i int, prefix string, rq Req) (evName string, evRec vtrace.Rec) {
+func serveOne(t *tree, e *route.Engine, ctx *app.RequestContext, c *Case, i int, prefix string, rq Req) (evName string, evRec vtrace.Rec) {
 	defer func() {
 		if r := recover(); r != nil {
 			evRec = echo(t, i, rq)
@@ -416,7 +423,9 @@ func serveOne(t *tree, e *route.Engine, c *Case, i int, prefix string, rq Req) (
 			evName = "Panic"
 		}
 	}()
-	ctx := e.NewContext()
+	if i > 0 {
+		ctx.ResetWithoutConn()
+	}
 	ctx.Request.SetRequestURI(prefix + rq.Path)
 	ctx.Request.Header.SetMethod(rq.Method)
 	ctx.Request.SetHost(rq.Host)
